@@ -19,7 +19,8 @@ CHECKS = {
         "Knuth-D routine abstracted. Kani/CBMC through the public API (includes the primitive): mul against a 2W-bit product, "
         "div flag by a shift/compare criterion and quotient by multiply-back, full operand space for widths 8-32 (mul 64) at "
         "boundary fractional counts; 128-bit mul on operand families; 64/128-bit div for EVERY dividend against constant divisors "
-        "(+-1 ulp, +-2^k, 3, 10 and the two-limb 2^(W/2)+3 that drives the main loop of Knuth D).",
+        "(+-1 ulp, +-2^k, 3, 10 and the two-limb 2^(W/2)+3 that drives the main loop of Knuth D); 64/128-bit mul for EVERY a against "
+        "constant power-of-two factors.",
         TRUST + "Engine M additionally trusts cvc5/z3, the nightly MIR dump and the executor vm/mir.py (validated concretely "
         "against exact arithmetic on every run). Outside: 64/128-bit division by a SYMBOLIC divisor at API level (Knuth D of wide_div.rs "
         "is abstracted in Engine M), wrapped value of an overflowing division for widths >= 16 with a symbolic divisor.", "MIR->SMT symbolic execution (cvc5, z3) + " + KANI, "DESIGN.md 1.1b, 4 C01"),
@@ -27,7 +28,8 @@ CHECKS = {
         "Bounded model checking: per alias and per policy form (one library multiplication/division per query) the solver decides "
         "over all operand pairs that checked/saturating/wrapping/overflowing (and the operator) agree with one exact result R "
         "computed in 256-bit two's complement; zero divisors give None; 64/128-bit division: all five forms for every dividend "
-        "against constant power-of-two divisors incl. -1 ulp.",
+        "against constant power-of-two divisors incl. -1 ulp, multiplication likewise against power-of-two factors; operator, assigning "
+        "and by-reference forms of + - and unary - agree with the exact result.",
         TRUST + "Outside: 128-bit mul policy forms outside C01's operand families, 64/128-bit division by a symbolic divisor, aliases "
         "not instantiated.", KANI, "DESIGN.md 4 C02"),
     "C03": (
